@@ -529,6 +529,7 @@ def check_request(ctx: Any, cfg: dict[str, Any], h: dict[str, Any], verb: str, p
     # service code: the model says what the route may run given a well-formed body; the harness knows what it sent
     kinds = dict(cfg["methods"])
     want = set()
+    may_introspect = False
     for c in m["code"]:
         k = c["k"]
         nm = "".join(chr(x) for x in c.get("m", []))
@@ -542,9 +543,13 @@ def check_request(ctx: Any, cfg: dict[str, Any], h: dict[str, Any], verb: str, p
             want.add(("exchange", nm))
         elif k == "uploadUrl" and (extra or {}).get("body_for") == "__upload_url__":
             want.add(("uploadUrl", ""))
-        elif k == "tokenIntrospect":
-            want.add(("tokenIntrospect", ""))
+        elif k == "tokenIntrospect" and cfg["auth"] and cred == "good":
+            # the resource runs the resolver only for an authenticated allow-listed caller and within its rate limit:
+            # the model says "may run"; the log may show it only in that case
+            may_introspect = True
     got = {tuple(x) for x in ran}
+    if ("tokenIntrospect", "") in got and may_introspect:
+        got.discard(("tokenIntrospect", ""))
     if got != want:
         ctx.mismatch(case, sorted(want), sorted(got), "service code run: model (for the body sent) vs invocation log")
 
@@ -643,8 +648,10 @@ def run(ctx: Any) -> None:
         cfgs.append(random_cfg(ctx.rng))
     full = ctx.tier == "thorough" or ctx.deep
     n_mut = ctx.budget(40, 300)
-    for cfg in cfgs:
+    for i, cfg in enumerate(cfgs):
         run_cfg(ctx, cfg, n_mut, full)
+        if ctx.deep and ctx.tier != "thorough" and len(ctx.failures) >= 8 and i >= 3:
+            break  # raised-budget search: failing inputs found, no need to exhaust the budget
     ctx.note("configurations", len(cfgs))
     ctx.note("invocation_log_positive_controls", ctx.tags.get("ran:yes", 0))
 
